@@ -113,7 +113,25 @@ class NonShearMonitor:
                 zp = a0 / (15 * ei * ej)
                 th = a1 / (15 * ei * ej)[None]
             szp, sth = fph.scale_nonshear(spec, t, v, ei, ej, longi)
-            out["F"] = (numpy.asarray(zp, float), numpy.asarray(th, float), szp, sth, TOL)
+            # error budget for the arrays the object was given (interpolated modes in end-to-end runs; exact closed
+            # forms in the duck-typed workloads): d ln w is amplified by Q in the Bose factors
+            if "budget" not in cache:
+                m = spec.mask
+                with numpy.errstate(all="ignore"):
+                    dfw = numpy.abs(numpy.log(numpy.asarray(calc.freq_array, float)[:, m]) - numpy.log(spec.omega(v)[:, m])).max() if m.any() else 0.0
+                dg = numpy.abs(numpy.asarray(calc.mode_gamma[1], float)[:, m] - spec.gamma(v)[:, m]).max() if m.any() else 0.0
+                dd = numpy.abs(numpy.asarray(calc.mode_gamma[0], float)[:, m] - spec.vdgdv(v)[:, m]).max() if m.any() else 0.0
+                wmin = spec.omega(v)[:, m].min() if m.any() else 0.0
+                g2 = max(0.05, float((spec.gamma(v)[:, m] ** 2).mean())) if m.any() else 1.0
+                with numpy.errstate(all="ignore"):
+                    qmin = numpy.where(t > 0, U.HC_OVER_K_CM * wmin / numpy.where(t > 0, t, 1.0), 0.0)
+                if not numpy.isfinite(dfw):
+                    dfw = 1.0
+                base = 5 * ((5 * dg + dd) / g2)
+                cache["budget"] = (TOL + 5 * dfw + base, (TOL + 5 * dfw * (1 + qmin) + base)[:, None], (dfw, dg, dd))
+                self.ctx.maxi("interpolation_budget_dlnw", dfw)
+            tolz, tolt, _ = cache["budget"]
+            out["F"] = (numpy.asarray(zp, float), numpy.asarray(th, float), szp, sth, (tolz, tolt))
         r = fph.closed_form_from_arrays(calc.freq_array, calc.mode_gamma[1], calc.mode_gamma[0], _weights(calc), t, v, ei, ej, longi)
         szp2, sth2 = _abs_scale_from_arrays(calc, t, v, ei, ej, longi)
         out["arrays"] = (r["zp"], r["th"], szp2, sth2, TOL2)
@@ -154,10 +172,12 @@ class NonShearMonitor:
         if z.any() and numpy.any(th[z] != 0):
             ctx.violation(f"{kind}:thermal:nonzero-at-T0", f"thermal part at T=0 is {th[z].ravel()[:3]}", cid)
         for src, (zr, tr, szp, sth, tol) in refs.items():
-            ez = numpy.abs(zp - zr) / (szp + 1e-300)
-            et = numpy.abs(th - tr) / (sth + szp[None] * 1e-9 + 1e-300)
-            ctx.maxi(f"{kind}_zp_err/tol[{src}]", ez.max() / tol)
-            ctx.maxi(f"{kind}_th_err/tol[{src}]", et.max() / tol)
+            tolz, tolt = tol if isinstance(tol, tuple) else (tol, tol)
+            ez = numpy.abs(zp - zr) / (szp + 1e-300) / tolz
+            et = numpy.abs(th - tr) / (sth + szp[None] * 1e-9 + 1e-300) / tolt
+            ctx.maxi(f"{kind}_zp_err/tol[{src}]", ez.max())
+            ctx.maxi(f"{kind}_th_err/tol[{src}]", et.max())
+            tol = 1.0
             if not (ez.max() <= tol):
                 i = int(numpy.argmax(ez))
                 ratio = zp[i] / zr[i] if zr[i] != 0 else float("nan")
@@ -196,8 +216,11 @@ class NonShearMonitor:
             if "dpdt" not in cache:
                 cache["dpdt"] = numpy.asarray(spec.dpdt(t, v), dtype=float)
             dpdt = cache["dpdt"]
+            if "budget" not in cache:
+                self._ref(obj)
+            tolt = cache["budget"][1]
             with numpy.errstate(all="ignore"):
-                out["F"] = (t[:, None] * v[None, :] * dpdt ** 2 / (9 * ei * ej)[None, :] / cv, TOL)
+                out["F"] = (t[:, None] * v[None, :] * dpdt ** 2 / (9 * ei * ej)[None, :] / cv, 2 * tolt)
         r = fph.closed_form_from_arrays(calc.freq_array, calc.mode_gamma[1], calc.mode_gamma[0], _weights(calc), t, v, ei, ej, True)
         with numpy.errstate(all="ignore"):
             out["arrays"] = (t[:, None] / v[None, :] * r["dsdx"] ** 2 / (9 * ei * ej)[None, :] / cv, TOL2)
@@ -250,13 +273,13 @@ class NonShearMonitor:
         absmag = refs.pop("_abs")
         for src, (ref, tol) in refs.items():
             scale = numpy.maximum(numpy.abs(ref), absmag) + 1e-9 * classical + 1e-300
-            e = numpy.where(ok, numpy.abs(gap - ref) / scale, 0)
+            e = numpy.where(ok, numpy.abs(gap - ref) / scale / tol, 0)
             nz = ok & (numpy.abs(ref) > 1e-9 * classical)
             if nz.any():
                 ctx.count("monitor:gap_points_nontrivial", int(nz.sum()))
                 emax = e[nz].max()
-                ctx.maxi(f"gap_err/tol[{src}]", emax / tol)
-                if not (emax <= tol):
+                ctx.maxi(f"gap_err/tol[{src}]", emax)
+                if not (emax <= 1.0):
                     i = numpy.argwhere(nz & (e >= emax))[0]
                     ctx.violation(f"{kind}:gap:mismatch[{src}]",
                                   f"gap {gap[tuple(i)]!r} vs T V (dP/dT)^2/(9 e_i e_j C_V) = {ref[tuple(i)]!r} "
